@@ -1205,7 +1205,7 @@ fn wrapper_op(t: &[&str]) -> String {
             }
             if p[0] == "checksum" {
                 let c: u8 = p[1].parse().ok().filter(|c| *c <= 9)?;
-                w = w.with_checksum(Checksum::generate(&[c]));
+                w = w.with_checksum(tag_checksum(c));
                 continue;
             }
             let n = tag_of(p.get(1))? - 1;
@@ -1228,6 +1228,15 @@ fn wrapper_op(t: &[&str]) -> String {
     }
 }
 
+/// the checksum behind `checksum:N`: a digest, except for the two boundary values — all-zero bytes (N = 0) and all-0xFF bytes (N = 9)
+fn tag_checksum(n: u8) -> Checksum {
+    match n {
+        0 => Checksum::from([0u8; 32]),
+        9 => Checksum::from([0xffu8; 32]),
+        _ => Checksum::generate(&[n]),
+    }
+}
+
 fn observe_wrapper(w: &W) -> String {
     let mut deps: OwnedDeps<MockStorage, MockApi, MockQuerier<CQuery>, CQuery> =
         OwnedDeps { storage: MockStorage::default(), api: MockApi::default(), querier: MockQuerier::new(&[]), custom_query_type: PhantomData };
@@ -1238,7 +1247,7 @@ fn observe_wrapper(w: &W) -> String {
     };
     let checksum = match w.checksum() {
         None => "none".to_string(),
-        Some(c) => (0u8..=9).find(|n| Checksum::generate(&[*n]) == c).map(|n| n.to_string()).unwrap_or_else(|| "?".into()),
+        Some(c) => (0u8..=9).find(|n| tag_checksum(*n) == c).map(|n| n.to_string()).unwrap_or_else(|| "?".into()),
     };
     let body = b"{}".to_vec();
     let execute = data(Contract::execute(w, deps.as_mut(), mock_env(), info.clone(), body.clone()));
